@@ -278,6 +278,8 @@ pub enum Ev {
 	Unlock(u8, B),
 	/// Drive the pipeline until nothing is left to do (P* F E* K R ... to fixpoint).
 	Drain,
+	/// Put the database into the background-error state (what a failing worker does).
+	BgErr,
 }
 
 impl Ev {
@@ -287,6 +289,7 @@ impl Ev {
 			Ev::Stage(s) => json!({"stage": s.name()}),
 			Ev::Reopen => json!("reopen"),
 			Ev::Drain => json!("drain"),
+			Ev::BgErr => json!("bg_err"),
 			Ev::It(c) => match c {
 				ItCall::Open(c) => json!({"it": "open", "col": c}),
 				ItCall::Seek(k) => json!({"it": "seek", "key": k.to_json()}),
@@ -306,6 +309,9 @@ impl Ev {
 		}
 		if j == "drain" {
 			return Ev::Drain
+		}
+		if j == "bg_err" {
+			return Ev::BgErr
 		}
 		if let Some(t) = j.get("commit") {
 			return Ev::Commit(tx_from_json(t))
@@ -339,6 +345,7 @@ impl Ev {
 			Ev::Stage(s) => s.name().to_string(),
 			Ev::Reopen => "X".into(),
 			Ev::Drain => "D".into(),
+			Ev::BgErr => "BGERR".into(),
 			Ev::It(c) => match c {
 				ItCall::Open(c) => format!("it.open({})", c),
 				ItCall::Seek(k) => format!("it.seek({})", k.short()),
